@@ -6,6 +6,8 @@ CONSTANTS
   Faults <- MCFaults
   StopAt <- NoStop
   CmdBudget = 0
+  CmdKinds = {"hold", "release", "holdpt", "relall", "stoppt", "stopnow"}
+  SetOuts = {}
 INVARIANT TypeOK
 INVARIANT C01_SubmitOnlyIfSatisfied
 INVARIANT C01_OnSequenceInBounds
